@@ -290,6 +290,14 @@ pub fn xfer(prop: &'static str, tier: Tier, w: &Arc<World>) -> Scn {
     srv.single_port = d.chance("swarm.single_port", 1, 3);
     srv.v6 = d.chance("swarm.ipv6", 1, 8);
     srv.arg_rot = d.range("swarm.arg_rotation", 8) as usize;
+    if d.chance("swarm.distinct_dirs", 1, 4) {
+        // explicit send and receive directories next to a general directory that holds a decoy of the same name
+        let base = sandbox.dir("base");
+        std::fs::write(base.join("data.bin"), content(777, 251)).expect("decoy");
+        srv.dir = base;
+        srv.send_dir = Some(dir.clone());
+        srv.recv_dir = Some(dir.clone());
+    }
     let dupn: u64 = if d.chance("swarm.dup", 1, 6) { 1 + d.range("swarm.dup.n", 2) as u64 } else { 0 };
     if dupn > 0 {
         srv.dup = Some(dupn.to_string());
@@ -633,7 +641,7 @@ pub fn xfer(prop: &'static str, tier: Tier, w: &Arc<World>) -> Scn {
     };
     let mut specs = vec![XferSpec { client, peer, kind, content: data.clone(), path, conformant, dally, timeout_ratio }];
     let mut bystander = None;
-    if (prop == "C01" || prop == "C02") && d.chance("swarm.bystander", 1, 4) {
+    if (prop == "C01" || prop == "C02" || (prop == "C07" && conformant && !wrap_class)) && d.chance("swarm.bystander", 1, 4) {
         // another client fetches a small file with default options while the main transfer runs
         let (bp, spec) = add_bystander(&d, w, &srv, &dir);
         specs.push(spec);
